@@ -179,6 +179,14 @@ impl Harness {
         f: impl FnOnce() -> R,
     ) -> Outcome<R> {
         self.ops += 1;
+        if crate::MARKERS.load(std::sync::atomic::Ordering::Relaxed) {
+            // replay-after-death mode: tell the supervisor which entry point is in flight
+            use std::io::Write;
+            let out = std::io::stdout();
+            let mut out = out.lock();
+            let _ = writeln!(out, "O {}", entry);
+            let _ = out.flush();
+        }
         let budget = 1_000_000 + 16 * input_bytes;
         self.fs.begin_op(op_id as usize, self.sub_seed(op_id), budget);
         let bound = ALLOC_BASE_BOUND.saturating_add(64usize.saturating_mul(input_bytes as usize));
